@@ -226,7 +226,12 @@ def replay(desc, col):
 REGISTER = True
 QUICK_BUDGET_S = 300
 THOROUGH_BUDGET_S = 900
-MUTANTS = []
+MUTANTS = [
+    {"what": "parallel(): results[i] = result -> results.append(result)", "caught": True, "how": "list:length"},
+    {"what": "parallel() dict path: return result without re-keying by the input dict (key order = arrival order)", "caught": True, "how": "dict:key-order (hook driver, permuted arrival)"},
+    {"what": "parallel(): enumerate(jobs) -> enumerate(jobs, 1)", "caught": True, "how": "crash:IndexError"},
+    {"what": "parallel(): results[i] = result -> results[i - 1] = result (rotation, same length)", "caught": True, "how": "list:wrong-position"},
+]
 MANIFEST = {
     "level_text": "Property-based testing of accelforge.util.parallel.parallel on generated job lists/dicts with real loky workers (random sleeps, true nondeterministic completion) and with the seeded completion-order hook (drawn permutations): every result must sit at its job's index / key, key order preserved, unordered mode returns the right multiset. No counterexample in N generated job lists; not a proof.",
     "level_note": "Job functions are module-level with plain-data results. The hook driver trusts the hook's logged permutation; the loky driver's completion order is read from job end timestamps.",
